@@ -1,6 +1,7 @@
 package rules
 
 import (
+	"sort"
 	"go/token"
 	"strings"
 
@@ -194,6 +195,146 @@ func c06(x *Ctx) {
 		}
 	}
 	c.Min(rFresh, 5)
+
+	// ---- clause 2b: a value cached from the configuration is rewritten on every refresh ------------------------
+	// (a refresh function – called from reloadConfigs – that stores a collector field must store it on every path;
+	// an early return, e.g. "nothing configured", leaves the previous configuration's value in place for good)
+	const rRef = "C06.refresh-stores-always"
+	if rc := x.P.Func("collect", "InMemCollector", "reloadConfigs"); rc != nil {
+		storedField := func(in ssa.Instruction) (string, bool) {
+			switch y := in.(type) {
+			case *ssa.Store:
+				if fr, _, ok := eng.FieldRefOf(y.Addr); ok && fr.Struct != nil && fr.Struct.Obj().Name() == "InMemCollector" {
+					return fr.Name, true
+				}
+			case *ssa.Call:
+				if n := eng.CalleeName(y); strings.HasPrefix(n, "(*sync/atomic.") && (strings.HasSuffix(n, ").Store") || strings.HasSuffix(n, ").Swap")) && len(y.Call.Args) > 0 {
+					if fr, _, ok := eng.FieldRefOf(y.Call.Args[0]); ok && fr.Struct != nil && fr.Struct.Obj().Name() == "InMemCollector" {
+						return fr.Name, true
+					}
+				}
+			}
+			return "", false
+		}
+		eng.Instrs(rc, func(in ssa.Instruction) {
+			cl, ok := in.(*ssa.Call)
+			if !ok {
+				return
+			}
+			g := cl.Call.StaticCallee()
+			if g == nil || g.Blocks == nil || x.P.FuncRel(g) != "collect" || g.Signature.Recv() == nil || !strings.Contains(g.Signature.Recv().Type().String(), "InMemCollector") {
+				return
+			}
+			fields := map[string]bool{}
+			eng.Instrs(g, func(i2 ssa.Instruction) {
+				if f, ok := storedField(i2); ok {
+					fields[f] = true
+				}
+			})
+			for f := range fields {
+				c.Examined++
+				r := eng.Explore(eng.Query{Fn: g, Classify: func(i2 ssa.Instruction, _ eng.Facts) eng.Event {
+					if n, ok := storedField(i2); ok && n == f {
+						return eng.EvSink
+					}
+					return eng.EvNone
+				}})
+				bad := false
+				for _, e := range r.Exits {
+					if _, isRet := e.Instr.(*ssa.Return); isRet && e.Sinks == 0 {
+						bad = true
+					}
+				}
+				c.Decide(!bad, rRef, BaseName(g)+"/"+f, x.PosOf(g.Pos()), "the cached value is rewritten on every path of the refresh",
+					BaseName(g)+" refreshes InMemCollector."+f+" from the configuration on reload but can return without storing it: when the new configuration makes that path be taken (e.g. the option was emptied) the value of the previous configuration stays in effect")
+			}
+		})
+	}
+
+	// ---- clause 2c: the three forwarding sites put the same counts under the same keys -------------------------
+	const rCnt = "C06.count-sibling-agreement"
+	{
+		type sig map[string]string // scenario/key -> accessor
+		sigs := map[string]sig{}
+		var order []string
+		for _, f := range funcs {
+			uses := false
+			eng.Instrs(f, func(in ssa.Instruction) {
+				if _, ok := eng.IsCall(in, "(config.Config).GetAddCountsToRoot", "(config.Config).GetAddSpanCountToRoot"); ok {
+					uses = true
+				}
+			})
+			if !uses {
+				continue
+			}
+			sg := sig{}
+			for _, sc := range []struct {
+				name           string
+				counts, spanCt eng.Tri
+			}{{"all-counts", eng.True, eng.Unknown}, {"span-count-only", eng.False, eng.True}} {
+				as := &eng.Assume{Bool: func(v ssa.Value) eng.Tri {
+					if isCallValue(v, "(config.Config).GetAddCountsToRoot") {
+						return sc.counts
+					}
+					if isCallValue(v, "(config.Config).GetAddSpanCountToRoot") {
+						return sc.spanCt
+					}
+					return eng.Unknown
+				}}
+				eng.Explore(eng.Query{Fn: f, Assume: as, Classify: func(in ssa.Instruction, _ eng.Facts) eng.Event {
+					k, cl, ok := payloadSetKey(in)
+					if !ok || !strings.Contains(k, "count") {
+						return eng.EvNone
+					}
+					acc := "?"
+					eng.Derives(eng.CallArgs(cl)[1], func(v ssa.Value) bool {
+						if c2, ok := v.(*ssa.Call); ok {
+							if n := eng.MethodBase(eng.CalleeName(c2)); strings.HasSuffix(n, "Count") {
+								acc = n
+							}
+						}
+						return false
+					}, eng.FlowOpts{})
+					sg[sc.name+"/"+k] = acc
+					return eng.EvNone
+				}})
+			}
+			if len(sg) > 0 {
+				sigs[BaseName(f)] = sg
+				order = append(order, BaseName(f))
+			}
+		}
+		sort.Strings(order)
+		if len(order) >= 2 {
+			ref := order[0]
+			// the on-time path (send) is the reference when present
+			for _, n := range order {
+				if n == "send" {
+					ref = n
+				}
+			}
+			for _, n := range order {
+				if n == ref {
+					continue
+				}
+				c.Examined++
+				diff := ""
+				for k, v := range sigs[ref] {
+					if sigs[n][k] != v {
+						diff = sprintf("%s: %s has %s, %s has %s", k, ref, v, n, sigs[n][k])
+					}
+				}
+				for k, v := range sigs[n] {
+					if _, ok := sigs[ref][k]; !ok {
+						diff = sprintf("%s: only %s sets it (from %s)", k, n, v)
+					}
+				}
+				c.Decide(diff == "", rCnt, n+"~"+ref, "collect/collect.go", "same counts under the same keys for the same options",
+					"the forwarding sites disagree on the root-span counts ("+diff+"): a root span that arrives late (or is forwarded by another path) carries a different count than the same root sent on time")
+			}
+		}
+	}
+	c.Min(rCnt, 2)
 
 	// ---- clause 3: writers of the cached hostname -----------------------------------------
 	const rHost = "C06.hostname-writers"
